@@ -1,25 +1,46 @@
-import Glom.Lemmas.C01
-import Glom.Model.C01Env
+import Glom.Lemmas.C01Reg
+import Glom.Lemmas.C01Py
+import Glom.Model.C01Env2
 /-
   C01 — Path access returns the addressed object or pinpoints the failing segment.
 
-  Property theorems only; helper lemmas are in `Glom/Lemmas/C01.lean`.
+  Property theorems only; helper lemmas are in `Glom/Lemmas/C01*.lean`.
   Every theorem is for *all* heaps (any sharing, any cycles), all targets, all
-  step lists of any length, and all environments whose extracted facts satisfy
-  the decidable predicate `WF`; `c01_facts_wf` discharges `WF` for the facts
-  regenerated from /repo on this run.
+  step lists of any length, **every handler table** (type map + fuzzy types),
+  **every handler semantics** (`env.hsem`: what a registered callable does),
+  every class-level behaviour of the target classes, and all environments whose
+  extracted facts satisfy the decidable predicate `WF2`; `c01_facts_wf`
+  discharges `WF2` for the facts regenerated from /repo on this run.
+
+  The registry is state: `_t_eval` consults `get_handler`, which memoises.  The
+  theorems carry the hypothesis that the memo is *coherent* with the table
+  (`Reg.coherent`), `c01_memo_invariant` shows every `register` / `glom` call
+  re-establishes it, so `c01_history_refines` needs it only for the first call —
+  and a fresh registry has an empty memo.
 -/
 namespace Glom.Props.C01
 open Glom Glom.C01
 
 /-- **Facts obligation** (re-checked on every run against the regenerated
     tables): the `.`/`[`/`P` branches of `_t_eval` perform getattr / subscription /
-    the registered handler and turn every exception those primitives can raise
-    into a PathAccessError; PathAccessError's MRO contains GlomError, KeyError,
-    IndexError and AttributeError. -/
-theorem c01_facts_wf : ∀ uc, WF (genEnv uc) = true := by
-  intro uc
-  have : WF (genEnv uc) = WF (genEnv []) := rfl
+    the registered handler and their `except` clauses name exactly the lookup
+    exceptions of that access; PathAccessError's MRO contains GlomError, KeyError,
+    IndexError and AttributeError; `register` / `register_op` drop the memo of
+    resolved handlers as a whole, `get_handler` looks the exact type up first and
+    memoises successes only; `_get_sequence_item` is `target[int(index)]`. -/
+theorem c01_facts_wf : (∀ uc info ue hsem, WF2 (genEnv2 uc info ue hsem) = true) ∧ factsOK = true := by
+  refine ⟨?_, by decide⟩
+  intro uc info ue hsem
+  have hm : ClassTable.mro (Generated.excTable ++ ue) "PathAccessError" =
+      ClassTable.mro Generated.excTable "PathAccessError" := by
+    unfold ClassTable.mro
+    rw [List.find?_append]
+    have : (Generated.excTable.find? (·.1 == "PathAccessError")).isSome = true := by decide
+    cases hf : Generated.excTable.find? (·.1 == "PathAccessError") with
+    | none => rw [hf] at this; contradiction
+    | some p => simp
+  have : WF2 (genEnv2 uc info ue hsem) = WF2 (genEnv2 [] [] [] (fun _ _ _ _ => .beyond)) := by
+    simp only [WF2, catches2, paeFlags2, genEnv2, Env.dispatchOf, hm, List.append_nil]
   rw [this]; decide
 
 /-- PathAccessError is a GlomError and catchable as KeyError, IndexError, AttributeError. -/
@@ -29,86 +50,179 @@ theorem c01_pae_bases :
   decide
 
 /-- **Refinement.** `_t_eval` on the flat ops tuple (index stepping by 2,
-    `part_idx = i // 2`) is the left-to-right walk: same object on success
-    (the same `Val`, i.e. the same address — identity, not a copy), on failure
-    a PathAccessError with the index of the first failing segment and the
-    underlying exception; and it touches exactly the segments the walk touches. -/
-theorem c01_refines_walk (env : TEnv) (hwf : WF env = true) (h : Heap)
+    `part_idx = i // 2`, the registry threaded through the loop) is the
+    left-to-right walk under the table in force: the same object on success (the
+    same `Val`, i.e. the same address — identity, not a copy); a PathAccessError
+    with the index of the first failing segment and the underlying exception on a
+    lookup failure; any other exception unchanged; it touches exactly the
+    segments the walk touches; and it leaves the registry with the same table. -/
+theorem c01_refines_walk (env : Env) (hwf : WF2 env = true) (r : Reg)
+    (hc : r.coherent env.k.ct = true) (h : Heap)
     (steps : List (String × Val)) (hs : wfSteps steps = true) (target : Val) :
-    tEval env h (Val.sent "T" :: flatOfSteps steps) target =
-      outOfWalk (walk env h steps 0 target) (walkTouched env h steps 0 target) := by
-  have := tLoop_eq_walk env hwf h (Val.sent "T") steps [] target [] hs
-  simpa [tEval] using this
+    tEval2 env h (Val.sent "T" :: flatOfSteps steps) target r =
+      ⟨resOfWalk (walk2 env r.tbl h steps 0 target), walkTouched2 env r.tbl h steps 0 target,
+       walkReg env h steps target r⟩ := by
+  have := tLoop2_eq_walk2 env hwf h (Val.sent "T") steps [] target [] r hs hc
+  simpa [tEval2] using this
+
+/-- **The memo is invisible.** Every call leaves a coherent memo over an unchanged
+    table, and `register` — which replaces the table — leaves an empty one. -/
+theorem c01_memo_invariant (env : Env) (hwf : WF2 env = true) (r : Reg)
+    (hc : r.coherent env.k.ct = true) (h : Heap) :
+    (∀ steps target, wfSteps steps = true →
+      let o := tEval2 env h (Val.sent "T" :: flatOfSteps steps) target r
+      o.reg.tbl = r.tbl ∧ o.reg.coherent env.k.ct = true) ∧
+    (∀ c hn ex, (r.register c hn ex).coherent env.k.ct = true ∧
+      (r.register c hn ex).tbl = r.tbl.register c hn ex) := by
+  constructor
+  · intro steps target hs
+    simp only
+    rw [c01_refines_walk env hwf r hc h steps hs target]
+    exact walkReg_coherent env h steps target r hc
+  · intro c hn ex
+    exact ⟨register_coherent r env.k.ct c hn ex, rfl⟩
+
+/-- **Histories.** For every sequence of `register` / `glom` calls on one
+    registry that starts coherent (a fresh one does), every `glom` call returns
+    what the walk gives under the table *as it is at the time of that call* —
+    whatever was accessed, resolved and memoised before. -/
+theorem c01_history_refines (env : Env) (hwf : WF2 env = true) (h : Heap) :
+    ∀ (evs : List Event) (r : Reg), r.coherent env.k.ct = true → wfEvents evs = true →
+    (runHistory env h r evs).map (fun o => (o.res, o.touched)) =
+      (refHistory env h r.tbl evs).map (fun p => (resOfWalk p.1, p.2)) := by
+  intro evs
+  induction evs with
+  | nil => intro r _ _; rfl
+  | cons e es ih =>
+    intro r hc hw
+    cases e with
+    | register c hn ex =>
+      simp only [runHistory, refHistory]
+      simp only [wfEvents] at hw
+      exact ih (r.register c hn ex) (register_coherent r env.k.ct c hn ex) hw
+    | glom steps tgt =>
+      simp only [wfEvents, Bool.and_eq_true] at hw
+      simp only [runHistory, refHistory, List.map_cons]
+      rw [c01_refines_walk env hwf r hc h steps hw.1 tgt]
+      obtain ⟨ht, hc'⟩ := walkReg_coherent env h steps tgt r hc
+      simp only
+      rw [ih _ hc' hw.2, ht]
 
 /-- Success returns the object reached by applying the segments left to right. -/
-theorem c01_ok_iff_reaches (env : TEnv) (hwf : WF env = true) (h : Heap)
+theorem c01_ok_iff_reaches (env : Env) (hwf : WF2 env = true) (r : Reg)
+    (hc : r.coherent env.k.ct = true) (h : Heap)
     (steps : List (String × Val)) (hs : wfSteps steps = true) (target v : Val) :
-    (tEval env h (Val.sent "T" :: flatOfSteps steps) target).res = .ok v ↔
-      Reaches env h target steps v := by
-  rw [c01_refines_walk env hwf h steps hs]
+    (tEval2 env h (Val.sent "T" :: flatOfSteps steps) target r).res = .ok v ↔
+      Reaches2 env r.tbl h target steps v := by
+  rw [c01_refines_walk env hwf r hc h steps hs]
   constructor
   · intro hr
-    cases hw : walk env h steps 0 target with
-    | ok v' => rw [hw] at hr; simp [outOfWalk] at hr; subst hr; exact walk_ok_reaches _ _ _ _ _ _ hw
-    | fail k e => rw [hw] at hr; simp [outOfWalk] at hr
-    | unsupported => rw [hw] at hr; simp [outOfWalk] at hr
-  · intro hr; rw [reaches_walk_ok env h hr 0]; rfl
+    cases hw : walk2 env r.tbl h steps 0 target with
+    | ok v' => rw [hw] at hr; simp [resOfWalk] at hr; subst hr; exact walk2_ok_reaches _ _ _ _ _ _ _ hw
+    | fail k e => rw [hw] at hr; simp [resOfWalk] at hr
+    | escapes k e => rw [hw] at hr; simp [resOfWalk] at hr
+    | noHandler k => rw [hw] at hr; simp [resOfWalk] at hr
+    | beyond k => rw [hw] at hr; simp [resOfWalk] at hr
+    | notAccess k => rw [hw] at hr; simp [resOfWalk] at hr
+  · intro hr; simp only; rw [reaches2_walk_ok env r.tbl h hr 0]; rfl
 
 /-- Failure pinpoints the first segment that cannot be accessed: a
     PathAccessError with part index `k` carrying the underlying exception `e`
-    is raised iff segments `0..k-1` succeed one after the other and segment `k`
-    applied to the value they reach raises `e`. -/
-theorem c01_pae_first (env : TEnv) (hwf : WF env = true) (h : Heap)
-    (steps : List (String × Val)) (hs : wfSteps steps = true) (target : Val) (k : Nat) (e : PyExc)
-    (hr : (tEval env h (Val.sent "T" :: flatOfSteps steps) target).res = .error (.pae k e)) :
-    k < steps.length ∧
-    ∃ u, Reaches env h target (steps.take k) u ∧
-      ∃ s, steps[k]? = some s ∧ refAccess env h s.1 u s.2 = some (.error e) := by
-  rw [c01_refines_walk env hwf h steps hs] at hr
-  cases hw : walk env h steps 0 target with
-  | ok v' => rw [hw] at hr; simp [outOfWalk] at hr
-  | unsupported => rw [hw] at hr; simp [outOfWalk] at hr
-  | fail k' e' =>
-    rw [hw] at hr; simp [outOfWalk] at hr
-    obtain ⟨rfl, rfl⟩ := hr
-    simpa using walk_fail_first env h steps 0 target k' e' hw
-
-/-- No later segment is touched: on a failure at `k` exactly the accesses
-    `0, 1, …, k` ran, in that order; on success exactly `0 … n-1`. -/
-theorem c01_prefix_only (env : TEnv) (hwf : WF env = true) (h : Heap)
-    (steps : List (String × Val)) (hs : wfSteps steps = true) (target : Val) :
-    let out := tEval env h (Val.sent "T" :: flatOfSteps steps) target
-    (∀ k e, out.res = .error (.pae k e) → out.touched.map (·.1) = List.range (k + 1)) ∧
-    (∀ v, out.res = .ok v → out.touched.map (·.1) = List.range steps.length) := by
-  simp only
-  rw [c01_refines_walk env hwf h steps hs]
+    is raised **iff** segments `0..k-1` succeed one after the other and segment
+    `k`, applied to the value they reach with the access in force for it, raises
+    the lookup exception `e`. -/
+theorem c01_pae_first (env : Env) (hwf : WF2 env = true) (r : Reg)
+    (hc : r.coherent env.k.ct = true) (h : Heap)
+    (steps : List (String × Val)) (hs : wfSteps steps = true) (target : Val) (k : Nat) (e : PyExc) :
+    (tEval2 env h (Val.sent "T" :: flatOfSteps steps) target r).res = .error (.pae k e) ↔
+    (k < steps.length ∧
+     ∃ u, Reaches2 env r.tbl h target (steps.take k) u ∧
+       ∃ s, steps[k]? = some s ∧ refStep env r.tbl h s.1 u s.2 = .fail e) := by
+  rw [c01_refines_walk env hwf r hc h steps hs]
   constructor
-  · intro k e hr
-    cases hw : walk env h steps 0 target with
-    | ok v' => rw [hw] at hr; simp [outOfWalk] at hr
-    | unsupported => rw [hw] at hr; simp [outOfWalk] at hr
+  · intro hr
+    cases hw : walk2 env r.tbl h steps 0 target with
     | fail k' e' =>
-      rw [hw] at hr; simp [outOfWalk] at hr
+      rw [hw] at hr; simp [resOfWalk] at hr
       obtain ⟨rfl, rfl⟩ := hr
-      have := walkTouched_fail env h steps 0 target k' e' hw
-      simp [outOfWalk, this, List.range_eq_range']
-  · intro v hr
-    cases hw : walk env h steps 0 target with
-    | fail k e => rw [hw] at hr; simp [outOfWalk] at hr
-    | unsupported => rw [hw] at hr; simp [outOfWalk] at hr
-    | ok v' =>
-      have := walkTouched_ok env h steps 0 target v' hw
-      simp [outOfWalk, this, List.range_eq_range']
+      exact walk2_fail_first env r.tbl h steps target k' e' hw
+    | ok v' => rw [hw] at hr; simp [resOfWalk] at hr
+    | escapes k e => rw [hw] at hr; simp [resOfWalk] at hr
+    | noHandler k => rw [hw] at hr; simp [resOfWalk] at hr
+    | beyond k => rw [hw] at hr; simp [resOfWalk] at hr
+    | notAccess k => rw [hw] at hr; simp [resOfWalk] at hr
+  · rintro ⟨_, u, hu, s, hsk, hf⟩
+    simp only
+    rw [walk2_stops_at env r.tbl h steps target u k s (.fail e) (.fail k e) hu hsk hf rfl]
+    rfl
 
-/-- With the default registrations in force no access failure escapes as
-    anything but a PathAccessError (no `raised`, no `badSpec`). -/
-theorem c01_only_pae (env : TEnv) (hwf : WF env = true) (h : Heap)
+/-- No later segment is touched: on a failure at `k` (or an exception escaping
+    from segment `k`) exactly the accesses `0, 1, …, k` ran, in that order; on
+    success exactly `0 … n-1`; a segment for whose value no handler is registered
+    is not applied at all (`0 … k-1` ran). -/
+theorem c01_prefix_only (env : Env) (hwf : WF2 env = true) (r : Reg)
+    (hc : r.coherent env.k.ct = true) (h : Heap)
     (steps : List (String × Val)) (hs : wfSteps steps = true) (target : Val) :
-    match (tEval env h (Val.sent "T" :: flatOfSteps steps) target).res with
-    | .ok _ | .error (.pae _ _) | .error .unregistered => True
+    let out := tEval2 env h (Val.sent "T" :: flatOfSteps steps) target r
+    (∀ k e, out.res = .error (.pae k e) → out.touched.map (·.1) = List.range (k + 1)) ∧
+    (∀ v, out.res = .ok v → out.touched.map (·.1) = List.range steps.length) ∧
+    (∀ k e, walk2 env r.tbl h steps 0 target = .escapes k e →
+      out.touched.map (·.1) = List.range (k + 1)) ∧
+    (∀ k, walk2 env r.tbl h steps 0 target = .noHandler k →
+      out.touched.map (·.1) = List.range k) := by
+  simp only
+  rw [c01_refines_walk env hwf r hc h steps hs]
+  have hidx := walkTouched2_idx env r.tbl h steps 0 target
+  refine ⟨?_, ?_, ?_, ?_⟩
+  · intro k e hr
+    cases hw : walk2 env r.tbl h steps 0 target with
+    | fail k' e' =>
+      rw [hw] at hr hidx; simp [resOfWalk] at hr
+      obtain ⟨rfl, rfl⟩ := hr
+      simpa [List.range_eq_range'] using hidx
+    | ok v' => rw [hw] at hr; simp [resOfWalk] at hr
+    | escapes k e => rw [hw] at hr; simp [resOfWalk] at hr
+    | noHandler k => rw [hw] at hr; simp [resOfWalk] at hr
+    | beyond k => rw [hw] at hr; simp [resOfWalk] at hr
+    | notAccess k => rw [hw] at hr; simp [resOfWalk] at hr
+  · intro v hr
+    cases hw : walk2 env r.tbl h steps 0 target with
+    | ok v' => rw [hw] at hidx; simpa [List.range_eq_range'] using hidx
+    | fail k e => rw [hw] at hr; simp [resOfWalk] at hr
+    | escapes k e => rw [hw] at hr; simp [resOfWalk] at hr
+    | noHandler k => rw [hw] at hr; simp [resOfWalk] at hr
+    | beyond k => rw [hw] at hr; simp [resOfWalk] at hr
+    | notAccess k => rw [hw] at hr; simp [resOfWalk] at hr
+  · intro k e hw
+    rw [hw] at hidx; simpa [List.range_eq_range'] using hidx
+  · intro k hw
+    rw [hw] at hidx; simpa [List.range_eq_range'] using hidx
+
+/-- What can come out at all: the object, a PathAccessError, an exception that is
+    not a lookup exception of the access that raised it (unchanged),
+    UnregisteredTarget — never a malformed-spec error; inside the modelled domain
+    (`inDomain`) never `beyond`. -/
+theorem c01_only_pae (env : Env) (hwf : WF2 env = true) (r : Reg)
+    (hc : r.coherent env.k.ct = true) (h : Heap)
+    (steps : List (String × Val)) (hs : wfSteps steps = true) (target : Val)
+    (hd : (walk2 env r.tbl h steps 0 target).inDomain = true) :
+    match (tEval2 env h (Val.sent "T" :: flatOfSteps steps) target r).res with
+    | .ok _ | .error (.pae _ _) | .error (.raised _) | .error .unregistered => True
     | _ => False := by
-  rw [c01_refines_walk env hwf h steps hs]
-  cases walk env h steps 0 target <;> simp [outOfWalk]
+  rw [c01_refines_walk env hwf r hc h steps hs]
+  cases hw : walk2 env r.tbl h steps 0 target <;> simp [resOfWalk] <;>
+    (rw [hw] at hd; simp [WalkRes2.inDomain] at hd)
+
+/-- A plain segment whose handler raises an `Exception` — whatever handler it is —
+    never lets it escape: it is the PathAccessError of that segment. -/
+theorem c01_handler_failure_is_pae (env : Env) (t : Table) (h : Heap) (cur arg : Val) (e : PyExc)
+    (hn : Handler) (hh : t.nearest env.k.ct (cur.clsName h) = some hn)
+    (he : env.applyHandler h hn cur arg = .err e)
+    (hexc : env.excTable.isSub e.cls "Exception" = true) :
+    refStep env t h "P" cur arg = .fail e := by
+  have h1 : ("P" == ".") = false := by decide
+  have h2 : ("P" == "[") = false := by decide
+  simp [refStep, h1, h2, hh, he, classify, lookupKinds, Env.isKind, hexc]
 
 /-- A dotted string denotes the same path as `Path(seg₀, …, segₙ)`: for
     segments free of `'.'` that are not `*`/`**`, `Path.from_text('.'.join(segs))`
@@ -133,36 +247,191 @@ theorem c01_mixed (a b : List Part) :
   | cons p r ih => cases p <;> simp [stepsOfParts, ih]
 
 /-- **Checker theorem** — the form in which the property is also evaluated on
-    the implementation's observation by the correspondence driver. -/
-theorem c01_model_checks (env : TEnv) (hwf : WF env = true) (h : Heap)
-    (steps : List (String × Val)) (hs : wfSteps steps = true) (target : Val)
-    (hsup : walk env h steps 0 target ≠ .unsupported) :
-    let out := tEval env h (Val.sent "T" :: flatOfSteps steps) target
-    checkC01 env h steps target (observe env out) (some (touchedAddrs out.touched)) = true := by
-  simp only
-  rw [c01_refines_walk env hwf h steps hs]
-  obtain ⟨_, _, _, hflags⟩ := WF_parts hwf
-  unfold checkC01
-  cases hw : walk env h steps 0 target with
-  | ok v => simp [outOfWalk, observe, isSubseq_refl]
-  | fail k e => simp [outOfWalk, observe, hflags, isSubseq_refl]
-  | unsupported => exact absurd hw hsup
+    the implementation's observations by the correspondence driver: for every
+    history whose walks stay inside the modelled domain, the model's observations
+    satisfy `checkC01h`. -/
+theorem c01_model_checks (env : Env) (hwf : WF2 env = true) (h : Heap) :
+    ∀ (evs : List Event) (r : Reg), r.coherent env.k.ct = true → wfEvents evs = true →
+    (refHistory env h r.tbl evs).all (fun p => p.1.inDomain) = true →
+    checkC01h env h r.tbl evs
+      ((runHistory env h r evs).map (fun o => (observe2 env o, some (touchedAddrs o.touched)))) = true := by
+  obtain ⟨_, _, _, hflags⟩ := WF2_parts hwf
+  intro evs
+  induction evs with
+  | nil => intro r _ _ _; rfl
+  | cons e es ih =>
+    intro r hc hw hd
+    cases e with
+    | register c hn ex =>
+      simp only [wfEvents] at hw
+      simp only [refHistory] at hd
+      simp only [checkC01h, runHistory, refHistory]
+      exact ih (r.register c hn ex) (register_coherent r env.k.ct c hn ex) hw hd
+    | glom steps tgt =>
+      simp only [wfEvents, Bool.and_eq_true] at hw
+      simp only [refHistory, List.all_cons, Bool.and_eq_true] at hd
+      simp only [checkC01h, runHistory, refHistory, List.map_cons, checkAll, Bool.and_eq_true]
+      rw [c01_refines_walk env hwf r hc h steps hw.1 tgt]
+      obtain ⟨ht, hc'⟩ := walkReg_coherent env h steps tgt r hc
+      constructor
+      · simp only [checkOne, isSubseq_refl, Bool.and_true]
+        cases hwk : walk2 env r.tbl h steps 0 tgt with
+        | ok v => simp [resOfWalk, observe2, valMatch]
+        | fail k e => simp [resOfWalk, observe2, hflags]
+        | escapes k e => simp [resOfWalk, observe2]
+        | noHandler k => simp [resOfWalk, observe2]
+        | beyond k => rw [hwk] at hd; simp [WalkRes2.inDomain] at hd
+        | notAccess k => rw [hwk] at hd; simp [WalkRes2.inDomain] at hd
+      · have := ih _ hc' hw.2 (by rw [ht]; exact hd.2)
+        simp only [checkC01h, ht] at this
+        exact this
+
+/-! ### the extended access kernel (`int()`, class-level behaviour) -/
+
+/-- `int()` on a string of decimal digits (of any Unicode decimal block, as
+    tokens) within the digit limit is the number they denote; one digit more than
+    the limit is rejected. -/
+theorem c01_int_digits (m : Nat) (d : Nat) (ds : List Nat) :
+    intOfToks m ((d :: ds).map Tok.dig) =
+      if m != 0 && ds.length + 1 > m then none else some ((ofDigits ds d : Nat) : Int) :=
+  intOfToks_digits m d ds
+
+/-- whitespace before and after the number is ignored, a sign negates -/
+theorem c01_int_space_sign (m : Nat) (d : Nat) (ds : List Nat) (pre post : List Tok)
+    (hpre : allSp pre = true) (hpost : allSp post = true) (neg : Bool) :
+    intOfToks m (pre ++ Tok.sign neg :: (d :: ds).map Tok.dig ++ post) =
+      (intOfToks m ((d :: ds).map Tok.dig)).map (fun i => if neg then -i else i) :=
+  intOfToks_space_sign m d ds pre post hpre hpost neg
+
+/-- a single underscore between two digits is ignored; a trailing or doubled one is rejected -/
+theorem c01_int_underscore (m : Nat) (d d' : Nat) :
+    intOfToks m [Tok.dig d, Tok.us, Tok.dig d'] = intOfToks m [Tok.dig d, Tok.dig d'] ∧
+    intOfToks m [Tok.dig d, Tok.us] = none ∧
+    intOfToks m [Tok.us, Tok.dig d] = none ∧
+    intOfToks m [Tok.dig d, Tok.us, Tok.us, Tok.dig d'] = none := by
+  refine ⟨?_, ?_, ?_, ?_⟩ <;> simp [intOfToks, dropSp, digitsGo, allSp]
+
+/-- the extended `int()` reads every string of the first generation's subset
+    `[+-]?[0-9]+` (within the digit limit) as the same number — with the interpreter
+    tables of this run (a per-run obligation: `asciiOK` is decided on them) -/
+theorem c01_int_extends_ascii (s : String) (i : Int)
+    (hlim : s.toList.length ≤ Generated.c01IntMaxStrDigits) (h : pyIntOfStr s = some i) :
+    genRt.intOfStr s = some i :=
+  intOfStr_extends genRt (by decide) s i (Or.inr hlim) h
+
+/-- lookup order of `getattr`: a data descriptor of the class (property) wins over
+    the instance; the instance wins over class attributes and over `__getattr__`;
+    without a property and without `__getattr__` the only failure is AttributeError. -/
+theorem c01_getattr_order (k : KEnv) (h : Heap) (cur : Val) (n : String)
+    (hm : modelled h cur = true) :
+    (∀ b v, k.findMro (cur.clsName h) (fun i => assocGet i.props n) = some b →
+      runBehav k h b cur (.str n) = .ok v → pyGetattr2 k h cur (.str n) = .ok v) ∧
+    (∀ v, k.findMro (cur.clsName h) (fun i => assocGet i.props n) = none →
+      k.findMro (cur.clsName h) (fun i => indexOf? i.fields n) = none →
+      instAttr h cur n = some v → pyGetattr2 k h cur (.str n) = .ok v) ∧
+    (∀ e, k.findMro (cur.clsName h) (fun i => assocGet i.props n) = none →
+      k.findMro (cur.clsName h) (·.fallback) = none →
+      pyGetattr2 k h cur (.str n) = .err e → e = exc "AttributeError") :=
+  ⟨fun b v hp hb => getattr_descriptor_first k h cur n b v hm hp hb,
+   fun v hp hf hi => getattr_instance_second k h cur n v hm hp hf hi,
+   fun e hp hfb he => getattr_plain_errors k h cur n e hp hfb he⟩
+
+/-- a namedtuple field and its index reach the *same object* -/
+theorem c01_namedtuple_field_is_item (k : KEnv) (h : Heap) (a : Nat) (c : String) (xs : List Val)
+    (n : String) (i : Nat) (ha : h[a]? = some (.tuple c xs))
+    (hnp : k.findMro c (fun ci => assocGet ci.props n) = none)
+    (hf : k.findMro c (fun ci => indexOf? ci.fields n) = some i) (hi : i < xs.length) :
+    pyGetattr2 k h (.ref a) (.str n) = pyGetitem2 k h (.ref a) (.int i) :=
+  getattr_field_eq_item k h a c xs n i ha hnp hf hi
+
+/-- **The extension is conservative.** For classes without class-level behaviour
+    and a name that is no class attribute (the bound of the first-generation
+    kernel), `getattr` is the first-generation `pyGetattr`; for a scalar key and
+    no `__missing__`, subscription is the first-generation `pyGetitem`. -/
+theorem c01_kernel_conservative (k : KEnv) (h : Heap) (cur : Val) (hm : modelled h cur = true) :
+    (∀ n, k.info = [] → k.hasClassAttr (cur.clsName h) n = false →
+      pyGetattr2 k h cur (.str n) = accOf (pyGetattr h cur (.str n))) ∧
+    (∀ key, k.info = [] → scalarKey key = true →
+      pyGetitem2 k h cur key = accOf (pyGetitem h cur key)) :=
+  ⟨fun n hi hn => getattr2_conservative k h cur n hm hi hn,
+   fun key hi hk => getitem2_conservative k h cur key hm hi hk⟩
 
 /-! ### non-vacuity: concrete inputs meet every hypothesis -/
 
 private def exHeap : Heap :=
   [ .dict "dict" [(.str "a", .ref 1)],                 -- 0: {'a': [..]}
-    .list "list" [.int 10, .ref 2],                    -- 1: [10, obj]
-    .inst "Obj" [("b", .none)] ]                       -- 2: obj.b = None
+    .list "list" [.int 10, .ref 2],                    -- 1: [10, row]
+    .inst "Row" [("b", .none), ("_tab", .ref 3)],      -- 2: Row(b=None, _tab={...})
+    .dict "dict" [(.str "x", .ref 4)],                 -- 3: the private table
+    .tuple "Pt" [.int 1, .ref 0],                      -- 4: Pt(a=1, b=<0>)
+    .dict "Counter" [] ]                               -- 5: Counter()
+
+private def exClasses : ClassTable :=
+  [("Row", ["Row", "Rec", "_ObjStyleKeys", "object"]), ("Pt", ["Pt", "tuple", "_AbstractIterable", "object"]),
+   ("Counter", ["Counter", "dict", "_AbstractIterable", "_ObjStyleKeys", "object"])]
+
+private def exInfo : List (String × ClsInfo) :=
+  [("Pt", { fields := ["a", "b"], attrs := ["_fields"] }), ("Counter", { missing := some (.const (.int 0)) })]
+
+private def exEnv : Env := genEnv2 exClasses exInfo [] (fun _ _ _ _ => .beyond)
 
 private def exSteps : List (String × Val) := [("P", .str "a"), ("P", .str "1"), ("P", .str "b")]
 
-example : WF (genEnv []) = true ∧ wfSteps exSteps = true := by decide
-example : walk (genEnv []) exHeap exSteps 0 (.ref 0) = .ok .none := by decide
-example : walk (genEnv []) exHeap [("P", .str "a"), ("P", .str "7"), ("P", .str "b")] 0 (.ref 0)
+example : WF2 exEnv = true ∧ wfSteps exSteps = true ∧ defaultReg.coherent exEnv.k.ct = true := by decide
+example : walk2 exEnv defaultTable exHeap exSteps 0 (.ref 0) = .ok .none := by decide
+example : walk2 exEnv defaultTable exHeap [("P", .str "a"), ("P", .str "7"), ("P", .str "b")] 0 (.ref 0)
     = .fail 1 (exc "IndexError") := by decide
-example : walk (genEnv []) exHeap [("P", .str "a"), ("[", .int 1), (".", .str "zz")] 0 (.ref 0)
+example : walk2 exEnv defaultTable exHeap [("P", .str "a"), ("[", .int 1), (".", .str "zz")] 0 (.ref 0)
     = .fail 2 (exc "AttributeError") := by decide
-example : walk (genEnv []) exHeap exSteps 0 (.ref 0) ≠ .unsupported := by decide
+example : (walk2 exEnv defaultTable exHeap exSteps 0 (.ref 0)).inDomain = true := by decide
+
+/-- the seed scenario: `x` is not an attribute of the Row instance; once a
+    private-table handler is registered for its *base class* Rec it is reached -/
+example : walk2 exEnv defaultTable exHeap [("P", .str "x")] 0 (.ref 2) = .fail 0 (exc "AttributeError") := by
+  decide
+example : walk2 exEnv (defaultTable.register "Rec" (some (.table "_tab")) false) exHeap
+    [("P", .str "x"), ("P", .str " ٠_١ "), ("[", .str "a")] 0 (.ref 2) = .ok (.ref 1) := by decide
+/-- an exact registration for Rec does not reach the subclass Row -/
+example : walk2 exEnv (defaultTable.register "Rec" (some (.table "_tab")) true) exHeap
+    [("P", .str "x")] 0 (.ref 2) = .fail 0 (exc "AttributeError") := by decide
+/-- `get=False`: no handler — UnregisteredTarget, the segment is not applied -/
+example : walk2 exEnv (defaultTable.register "Rec" (some .off) false) exHeap
+    [("P", .str "a"), ("P", .int 1), ("P", .str "x")] 0 (.ref 0) = .noHandler 2 := by decide
+/-- class attributes are reached as opaque objects; an access on one is outside the domain -/
+example : walk2 exEnv defaultTable exHeap [(".", .str "keys")] 0 (.ref 0) = .ok opaqueVal := by decide
+example : walk2 exEnv defaultTable exHeap [(".", .str "__class__"), (".", .str "__name__")] 0 (.ref 2)
+    = .beyond 1 := by decide
+/-- `__missing__` (Counter) and namedtuple fields -/
+example : walk2 exEnv defaultTable exHeap [("P", .str "nope")] 0 (.ref 5) = .ok (.int 0) := by decide
+example : walk2 exEnv defaultTable exHeap [(".", .str "b"), ("P", .str "a")] 0 (.ref 4) = .ok (.ref 1) := by
+  decide
+/-- a plain segment on a namedtuple is an index, so a field name is a ValueError of `int()` -/
+example : walk2 exEnv defaultTable exHeap [("P", .str "b")] 0 (.ref 4) = .fail 0 (exc "ValueError") := by
+  decide
+
+/-! ### forced hypotheses: the counter-examples without them -/
+
+/-- what the registry would be if `register` only dropped the memo entries of the
+    registered type itself -/
+private def registerKeepingMemo (r : Reg) (c : String) (hn : Option Handler) (ex : Bool) : Reg :=
+  { tbl := r.tbl.register c hn ex, cache := r.cache.filter (·.1 != c) }
+
+private def warmReg : Reg := (defaultReg.getHandler exEnv.k.ct "Row").2
+
+/-- **coherence is forced**: after an access to a Row instance and a registration
+    for its base class that keeps the memo, `get_handler` answers the stale
+    `getattr`, not the handler the table gives -/
+example :
+    let r := registerKeepingMemo warmReg "Rec" (some (.table "_tab")) false
+    r.coherent exEnv.k.ct = false ∧
+    (r.getHandler exEnv.k.ct "Row").1 = some .getattr ∧
+    r.tbl.nearest exEnv.k.ct "Row" = some (.table "_tab") := by decide
+/-- … while `register` as it is re-establishes it -/
+example : (warmReg.register "Rec" (some (.table "_tab")) false).coherent exEnv.k.ct = true := by decide
+
+/-- **`Exception` is forced** in `c01_handler_failure_is_pae`: a handler raising
+    KeyboardInterrupt is not an access failure, the exception escapes unchanged -/
+example : walk2 exEnv (defaultTable.register "Rec" (some (.raises "KeyboardInterrupt")) false) exHeap
+    [("P", .str "x")] 0 (.ref 2) = .escapes 0 ⟨"KeyboardInterrupt"⟩ := by decide
 
 end Glom.Props.C01
